@@ -18,6 +18,8 @@ structure St where
   gen : Int                  -- `g_logTimeZoneGen`
   cache : TimeCache          -- of the main thread
   mainTid : Option TidState  -- tid cache of the main thread (`none`: not looked at yet)
+  wcache : TimeCache := TimeCache.fresh   -- of the persistent worker thread (`worker`: one muduo::Thread that lives
+  wTid : Option TidState := none          --   for the whole run and executes every `worker` request)
   env : List (List String)   -- pending environment lines, split into words (without the `<`)
 
 def ofBytes (bs : Driver.Bytes) : MuduoVerif.LogStream.Bytes := bs.map (·.toNat)
@@ -107,7 +109,8 @@ def clockArg (s : St) (c : String) : Option (Option Int) :=   -- some none: not 
       | _ => some none
     | none => none
 
-def isWhere (wh : String) : Bool := wh = "main" ∨ wh = "thread" ∨ wh = "fork" ∨ wh = "raw0" ∨ wh = "raw1"
+def isWhere (wh : String) : Bool :=
+  wh = "main" ∨ wh = "thread" ∨ wh = "fork" ∨ wh = "raw0" ∨ wh = "raw1" ∨ wh = "worker"
 
 /-- runs one request on the thread the line says (`main`, a `muduo::Thread`, the child of a `fork()`, a thread made
 with `pthread_create` whose first muduo call is the log statement (`raw0`) / that called `CurrentThread::tid()`
@@ -119,14 +122,16 @@ def emit (s : St) (wh : String) (r : LogReq) (fatal : Bool) : St × List String 
     | _ => 0
   let assertsOn : Bool := envGet s "asserts" == some ["1"]
   let mainT : TidState := s.mainTid.getD (entryState ptid .main)
-  let cache := if wh = "main" ∨ wh = "fork" then s.cache else TimeCache.fresh
+  let cache := if wh = "main" ∨ wh = "fork" then s.cache else if wh = "worker" then s.wcache else TimeCache.fresh
   let t : TidState :=
     if wh = "main" then mainT
+    else if wh = "worker" then s.wTid.getD (entryState r.tid .muduoThread)
     else if wh = "thread" then entryState r.tid .muduoThread
     else if wh = "fork" then entryState r.tid (.forkChild ptid mainT)
     else entryState r.tid (.foreign (wh = "raw1"))
   let res := logLine s.zone s.gen cache t r
-  let s' := if wh = "main" then { s with cache := res.cache, mainTid := some res.tid } else s
+  let s' := if wh = "main" then { s with cache := res.cache, mainTid := some res.tid }
+            else if wh = "worker" then { s with wcache := res.cache, wTid := some res.tid } else s
   if assertsOn ∧ ¬ res.asserts then (s', ["out-none", "aborted"])
   else (s', ["out " ++ hex res.text] ++ (if fatal then ["aborted"] else []))
 
